@@ -1809,7 +1809,20 @@ public:
 
   bool is_bottom() const override { return (m_base_dom.is_bottom()); }
 
-  bool is_top() const override { return (m_base_dom.is_top()); }
+  bool is_top() const override {
+    if (!m_base_dom.is_top()) {
+      return false;
+    }
+    // The array map is part of the value: a state that knows all the
+    // cells of some array excludes the contents with other cells.
+    for (auto it = m_array_map.begin(), et = m_array_map.end(); it != et;
+         ++it) {
+      if (it->second.all_cells_known()) {
+        return false;
+      }
+    }
+    return true;
+  }
 
   bool operator<=(const array_adaptive_domain_t &other) const override {
     crab::CrabStats::count(domain_name() + ".count.leq");
